@@ -17,6 +17,17 @@ LEVEL = 'proof'
 PARSED_BY = {'PL': ('PL',), 'LTL': ('LTL',), 'CTLS': ('CTLS',), 'CTL': ('CTL', 'CTLS')}
 
 
+def to_py_mixed(f, top=True):
+    """the same CTL* formula built the way callers combine results of different modules: maximal proper CTL state subformulas with
+    a quantifier are built with the CTL classes, everything above them with the CTL* classes (which cast such operands)"""
+    CT, CS = lang_module('CTL'), lang_module('CTLS')
+    if not top and f[0] in ('A', 'E', 'not', 'or', 'and', 'imp') and is_ctl_state(f) and any(g[0] in ('A', 'E') for g in subformulas(f)):
+        return to_py(f, CT)
+    if f[0] in ('true', 'false', 'ap'):
+        return to_py(f, CS)
+    return getattr(CS, PYNAME[f[0]])(*[to_py_mixed(g, False) for g in f[1:]])
+
+
 def observe_formula(item):
     """implementation side for one (logic, tree): returns
        (std string, compact string | None, compact outcome | None, None | dict of what went wrong)"""
@@ -47,6 +58,13 @@ def observe_formula(item):
             bad['cast_to'] = r
         elif r[1] != s:
             bad['cast_to_text'] = r[1]
+            texts.append(r[1])
+    if logic in ('CTL', 'CTLS'):
+        r = call(lambda: str(to_py_mixed(f)))
+        if r[0] != 'ok':
+            bad['mixed_construction'] = r
+        elif r[1] != s:
+            bad['mixed_construction_text'] = r[1]       # a CTL* object whose text is not the CTL* text of its tree
             texts.append(r[1])
     for txt in texts:
         for P in PARSED_BY[logic]:
